@@ -166,8 +166,8 @@ class Transaction:
         new_markers: List[str] = []
         try:
             for data_file in files:
-                marker_name = data_file.file_path.rsplit("/", 1)[-1]
-                marker_path = f"{_INFLIGHT_PATH}/{marker_name}.inflight"
+                # the marker of a file is keyed by the file's whole table-relative path (see _register_inflight)
+                marker_path = f"{_INFLIGHT_PATH}/{data_file.file_path.lstrip('/')}.inflight"
                 if marker_path in self._inflight_markers:
                     continue  # written by this transaction (append_data): protected since before it existed
                 self._register_inflight(data_file.file_path)
@@ -544,10 +544,20 @@ class Transaction:
         with a short grace period can delete a file between its write and the
         metadata commit that makes it reachable. Marker write failures
         propagate - a file is never written unprotected (fail closed).
+
+        The marker's key is the file's WHOLE table-relative path below
+        metadata/inflight/ ("metadata/inflight/data/p1/x.parquet.inflight"). It
+        used to be the basename only: "data/p1/x.parquet" and "data/p2/x.parquet"
+        (append_files accepts every canonical path under data/) then shared one
+        marker, which named the first file only - the second was an unprotected
+        orphan to every collection and was deleted under its own commit - and
+        any other transaction handling a file of that basename removed the shared
+        marker with its own. One key per path also lets a collection that cannot
+        read a marker's payload recover the exact path from the key.
         """
-        marker_name = file_path.rsplit("/", 1)[-1]
-        marker_path = f"{_INFLIGHT_PATH}/{marker_name}.inflight"
-        marker_payload = json.dumps({"file_path": file_path.lstrip("/")}).encode("utf-8")
+        target = file_path.lstrip("/")
+        marker_path = f"{_INFLIGHT_PATH}/{target}.inflight"
+        marker_payload = json.dumps({"file_path": target}).encode("utf-8")
         self.file_manager.storage.write_file(marker_path, marker_payload)
         self._inflight_markers.append(marker_path)
 
